@@ -63,13 +63,13 @@ Proof. exact inv_reachable. Qed.
 (* from every reachable state that is not one of the explicitly excluded unreadable situations, an
    uninterrupted run terminates normally and leaves the complete result it returns *)
 Theorem C06_resume_partial : forall cd c tag h s,
-  Inv cd c s -> recoverable cd c s -> sane c ->
+  Inv cd c s -> recoverable cd c s -> sane cd c ->
   exists r, plan_out cd c tag h s = inr r /\ stored c (r_tag r) (run_full cd c tag h s)
             /\ (r_samples r = Some (r_tag r) \/ r_samples r = expected_samples c (r_tag r)).
 Proof. exact resume. Qed.
 
 (* full statement for the repaired code: after ANY history the next uninterrupted run succeeds *)
-Theorem C06_resume_repaired : forall c runs tag h, sane c ->
+Theorem C06_resume_repaired : forall c runs tag h, sane repaired c ->
   let s := history repaired c 0 runs empty_fs in
   exists r, plan_out repaired c tag h s = inr r /\ stored c (r_tag r) (run_full repaired c tag h s)
             /\ (r_samples r = Some (r_tag r) \/ r_samples r = expected_samples c (r_tag r)).
@@ -77,8 +77,16 @@ Proof. exact resume_repaired. Qed.
 
 (* `sane` is needed: BFGS/LBFGS with maxiter = 0 raises UnboundLocalError on its first run *)
 Theorem C06_lbfgs_zero_updates_fails : forall rm csv keep chk,
-  plan_out repaired (mkcfg LBFGS 0 rm csv keep chk) 0 [] empty_fs = inl UnboundLocal.
+  plan_out six_repairs (mkcfg LBFGS 0 rm csv keep chk) 0 [] empty_fs = inl UnboundLocal.
 Proof. exact lbfgs_zero_updates_fails. Qed.
+
+(* prepared for proposed_fixes/C06-lbfgs-zero-iterations + C06-drawer-returns-internal (switched off in `repaired`):
+   with them no side condition on the configuration is left *)
+Theorem C06_resume_all_repairs : forall c runs tag h,
+  let s := history repaired_all c 0 runs empty_fs in
+  exists r, plan_out repaired_all c tag h s = inr r /\ stored c (r_tag r) (run_full repaired_all c tag h s)
+            /\ (r_samples r = Some (r_tag r) \/ r_samples r = expected_samples c (r_tag r)).
+Proof. exact resume_all_repairs. Qed.
 
 (* the persisted search state of a completed fit (search_internal kept) is the same after a re-run *)
 Theorem C06_internal_kept : forall cd c tag h s g x,
